@@ -121,6 +121,10 @@ def import_race(seconds):
 
 def run(tier, seed):
     chk = Check("C10", tier, seed, "other")
+    from ..kernels import c10_snapshots
+    from ..kernels.base import run_kernel
+    for k in c10_snapshots.KERNELS:
+        chk.add_kernel(run_kernel(k, tier))
     ok, sites, failing = rule_foreign_dicts()
     chk.add_rule("C10.S.foreign_dicts", ok, sites, failing)
     n_calls, errs = import_race(3 if tier == "quick" else 60)
